@@ -41,7 +41,8 @@ def decorate(rng, v):
 
 def send_sync_check(E):
     g = E["generics"]
-    inst = {"none": "", "ty": "<std::rc::Rc<u8>>", "tywhere": "<std::rc::Rc<u8>>", "const": "<3>", "tyconst": "<std::rc::Rc<u8>, 2>"}[g]
+    inst = {"none": "", "ty": "<std::rc::Rc<u8>>", "tywhere": "<std::rc::Rc<u8>>", "const": "<3>", "tyconst": "<std::rc::Rc<u8>, 2>",
+            "tydef": "<std::rc::Rc<u8>>", "constdef": "<3>"}[g]
     return ("fn _assert_send_sync<X: Send + Sync>() {}\nfn _check_send_sync() { _assert_send_sync::<%sIter%s>(); }\n" % (E["name"], inst))
 
 
@@ -110,6 +111,11 @@ def table_def(did, mask, idents=None):
     import random as _r
     rng = _r.Random(did * 7 + len(mask))
     vs = [decorate(rng, variant(idents[i], dis=bool(m))) for i, m in enumerate(mask)]
+    if did % 3 == 1 and len(vs) >= 2:
+        # explicit discriminants, permuted / out of the 0..n range: a key is a variant, not a number
+        vals = rng.sample([0, 1, 2, 3, 4, 5, 7, 40, 200], len(vs))
+        for v, x in zip(vs, vals):
+            v["disc"] = [x]
     return enum(did, vs, split=rng.randrange(2))
 
 
